@@ -171,20 +171,41 @@ type obsT struct {
 
 var obs obsT
 
-type scenario struct{ reqs []request }
+// pre: requests run one after the other on the fresh service before the
+// clients start (a non-initial state, e.g. world w1 already exists).
+type scenario struct {
+	reqs []request
+	pre  []request
+}
 
 func (s scenario) String() string {
 	var n []string
 	for _, r := range s.reqs {
 		n = append(n, r.name)
 	}
-	return strings.Join(n, " || ")
+	out := strings.Join(n, " || ")
+	if len(s.pre) > 0 {
+		var p []string
+		for _, r := range s.pre {
+			p = append(p, r.name)
+		}
+		out = "after " + strings.Join(p, "; ") + ": " + out
+	}
+	return out
+}
+
+func (s scenario) fresh() *svc {
+	sv := newService()
+	for _, r := range s.pre {
+		sv.do(r)
+	}
+	return sv
 }
 
 func (s scenario) body() func() {
 	return func() {
 		obs = obsT{responses: make([]string, len(s.reqs))}
-		sv := newService()
+		sv := s.fresh()
 		var wg vsync.WaitGroup
 		wg.Add(len(s.reqs))
 		for i, r := range s.reqs {
@@ -215,7 +236,7 @@ func (s scenario) serial() map[string]string {
 	var rec func(k int)
 	rec = func(k int) {
 		if k == n {
-			sv := newService()
+			sv := s.fresh()
 			responses := make([]string, n)
 			for _, i := range perm {
 				responses[i] = sv.do(s.reqs[i])
@@ -271,14 +292,23 @@ func (s scenario) splitOutcomes() map[string]bool {
 		var choose func(i int)
 		choose = func(i int) {
 			if i == n {
-				sv := newService()
+				sv := s.fresh()
 				responses := make([]string, n)
 				changes := make([]ingest.Change, n)
 				worlds := make([]ingest.MutableWorld, n)
+				readOnly := true
 				for step := 0; step < n; step++ {
 					for j := 0; j < n; j++ {
 						if s.reqs[j].kind == "evaluate" && evalAt[j] == step {
+							// write skew is about evaluations that only READ: one
+							// that changes the service's worlds is not explained
+							// by it (its own world is created on first use)
+							sv.worlds.FindOrCreateWorld(s.reqs[j].root)
+							before := sv.final()
 							responses[j], changes[j], worlds[j] = sv.evaluateOnly(s.reqs[j])
+							if sv.final() != before {
+								readOnly = false
+							}
 						}
 					}
 					j := order[step]
@@ -288,7 +318,9 @@ func (s scenario) splitOutcomes() map[string]bool {
 						responses[j] = applyOnly(changes[j], worlds[j])
 					}
 				}
-				out[outcomeString(responses, sv.final())] = true
+				if readOnly {
+					out[outcomeString(responses, sv.final())] = true
+				}
 				return
 			}
 			for t := 0; t <= pos[i]; t++ {
@@ -389,7 +421,15 @@ func scenarios(tier string) []scenario {
 	var out []scenario
 	for i := range menu {
 		for j := i; j < len(menu); j++ {
-			out = append(out, scenario{[]request{menu[i], menu[j]}})
+			out = append(out, scenario{reqs: []request{menu[i], menu[j]}})
+		}
+	}
+	// from the state in which world w1 already exists: the requests that
+	// replace, change, delete and list worlds (and a read), in pairs
+	withW1 := []int{0, 4, 5, 6, 7}
+	for a := 0; a < len(withW1); a++ {
+		for b := a; b < len(withW1); b++ {
+			out = append(out, scenario{reqs: []request{menu[withW1[a]], menu[withW1[b]]}, pre: []request{menu[4]}})
 		}
 	}
 	if tier == "thorough" {
@@ -397,7 +437,7 @@ func scenarios(tier string) []scenario {
 		for a := 0; a < len(core); a++ {
 			for b := a; b < len(core); b++ {
 				for c := b; c < len(core); c++ {
-					out = append(out, scenario{[]request{menu[core[a]], menu[core[b]], menu[core[c]]}})
+					out = append(out, scenario{reqs: []request{menu[core[a]], menu[core[b]], menu[core[c]]}})
 				}
 			}
 		}
@@ -412,7 +452,7 @@ func main() {
 	}
 	kit.Main(&kit.Check{
 		ID: "C40", Level: "model_checking", SlowIsNotHang: true,
-		Rule:          "scenario = multiset of 2 (thorough: also 3) client requests from a menu of read-only evaluate, unconditional change, changes computed from a read, change in another world, add-world-with-change, DeleteWorld, ListWorlds and a failing change; per scenario every interleaving of the client goroutines at the service's lock points; oracle: (responses, final worlds) equals the outcome of some serial order, computed by running every permutation on a fresh service. Non-trivial = at least one scheduling choice; distinct = happens-before keys.",
+		Rule:          "scenario = multiset of 2 (thorough: also 3) client requests (from a fresh service, and pairs of the world-level requests from the state in which world w1 already exists) from a menu of read-only evaluate, unconditional change, changes computed from a read, change in another world, add-world-with-change, DeleteWorld, ListWorlds and a failing change; per scenario every interleaving of the client goroutines at the service's lock points; oracle: (responses, final worlds) equals the outcome of some serial order, computed by running every permutation on a fresh service. Non-trivial = at least one scheduling choice; distinct = happens-before keys.",
 		Assumptions:   []string{"code between two lock operations runs atomically (the separate race pass covers unsynchronised accesses)", "one request per client"},
 		QuickDeadline: 200e9, ThoroughDeadline: 1500e9, CaseTimeout: 400e9, Chunk: 1, WorkerEnv: []string{"GOMAXPROCS=1"},
 		Build: func(tier string) (kit.Space, string) {
